@@ -50,16 +50,24 @@ def handleExpand (args : List Sx) : Sx :=
             let idx := ig.1
             let g := ig.2
             let nkeys := g.2.1.idents.length
-            let ht := match trait_ with
-              | some t => helperTraitOfTrait t idx nkeys
-              | none => none
+            let firstItem := match g.2.2 with | b :: _ => b.item | [] => .node "?" [] []
+            let htSx : Sx := match trait_ with
+              | some t => optSx (helperTraitOfTrait t idx nkeys)
+              | none => (match helperTraitOfInherent firstItem idx nkeys with
+                  | .ok t => .list [.sym "some", t.toSx]
+                  | .panic => .list [.sym "panic"]
+                  | .unmodelled => .list [.sym "unmodelled"])
             let mi : Sx := match trait_ with
               | some t => (match mainImplOfTrait t idx g with
                   | .ok m => .list [.sym "ok", m.toSx]
                   | .panic => .list [.sym "panic"]
                   | .unmodelled => .list [.sym "unmodelled"])
-              | none => .list [.sym "unmodelled"]
-            .list [optSx ht,
+              | none => (match mainImplInherent idx g with
+                  | .ok (some m) => .list [.sym "ok", m.toSx]
+                  | .ok none => .list [.sym "absent"]
+                  | .panic => .list [.sym "panic"]
+                  | .unmodelled => .list [.sym "unmodelled"])
+            .list [htSx,
               (match helperImpls idx g with
                | some hs => .list (hs.map T.toSx)
                | none => .list [.sym "panic"]), mi]))]
